@@ -542,16 +542,20 @@ impl Compress {
             if label_len & 0xc0 == 0xc0 {
                 panic!("copy_compressed_name() called on an already compressed name");
             }
-            if let Some(ref_offset) = dict.insert(&packet[offset..final_offset], compressed.len()) {
+            if let Some((ref_offset, ref_depth)) =
+                dict.insert(&packet[offset..final_offset], compressed.len())
+            {
                 assert!(ref_offset < 65536 >> 2); // Checked in dict.insert()
                 compressed.push((ref_offset >> 8) as u8 | 0xc0);
                 compressed.push((ref_offset & 0xff) as u8);
+                dict.end_name(ref_depth + 1);
                 break;
             }
             let offset_next = offset + 1 + label_len;
             compressed.extend_from_slice(&packet[offset..offset_next]);
             offset = offset_next;
             if label_len == 0 {
+                dict.end_name(0);
                 break;
             }
         }
@@ -581,6 +585,10 @@ const MAX_SUFFIXES: usize = 32;
 struct Suffix {
     offset: usize,
     len: usize,
+    /// Number of indirections followed when reading a name from `offset`
+    depth: u16,
+    /// Name this suffix was recorded for
+    name_id: usize,
     suffix: [u8; MAX_SUFFIX_LEN],
 }
 
@@ -589,6 +597,8 @@ impl Default for Suffix {
         Self {
             offset: 0,
             len: 0,
+            depth: 0,
+            name_id: 0,
             suffix: [0u8; MAX_SUFFIX_LEN],
         }
     }
@@ -598,6 +608,7 @@ impl Default for Suffix {
 pub struct SuffixDict {
     count: usize,
     index: usize,
+    name_id: usize,
     suffixes: [Suffix; MAX_SUFFIXES],
 }
 
@@ -610,7 +621,7 @@ impl SuffixDict {
     /// Inserts a new suffix into the suffix table
     /// Returns the offset of an existing suffix, if there is any, or `None` if
     /// there was none.
-    fn insert(&mut self, suffix: &[u8], offset: usize) -> Option<usize> {
+    fn insert(&mut self, suffix: &[u8], offset: usize) -> Option<(usize, u16)> {
         if offset >= 65536 >> 2 {
             return None;
         }
@@ -621,9 +632,10 @@ impl SuffixDict {
         for i in 0..self.count {
             let candidate = &self.suffixes[i];
             if candidate.len <= suffix_len
+                && candidate.depth < DNS_MAX_HOSTNAME_INDIRECTIONS
                 && Self::raw_names_eq_ignore_case(suffix, &candidate.suffix[..candidate.len])
             {
-                return Some(candidate.offset);
+                return Some((candidate.offset, candidate.depth));
             }
         }
 
@@ -632,6 +644,8 @@ impl SuffixDict {
         debug_assert_eq!(len, suffix_len);
         entry.len = suffix_len;
         entry.offset = offset;
+        entry.depth = 0;
+        entry.name_id = self.name_id;
         self.index += 1;
         self.count = cmp::max(self.index, self.count);
         if self.index == MAX_SUFFIXES {
@@ -640,6 +654,18 @@ impl SuffixDict {
                             // question
         }
         None
+    }
+
+    /// Ends the current name: the suffixes recorded for it are `depth`
+    /// indirections away from their root label.
+    fn end_name(&mut self, depth: u16) {
+        let name_id = self.name_id;
+        for entry in self.suffixes[..self.count].iter_mut() {
+            if entry.name_id == name_id {
+                entry.depth = depth;
+            }
+        }
+        self.name_id += 1;
     }
 
     /// Copy a trusted raw DNS name into a `to` slice.
